@@ -39,6 +39,26 @@ type naiveHeader struct {
 	// the context is cancelled and they are let go).
 	Cancel   string `json:"cancel,omitempty"`
 	CancelAt int    `json:"cancelAt,omitempty"`
+	// What the actions do to their own build directory between the
+	// merges.
+	Edits []naiveEdit `json:"edits,omitempty"`
+}
+
+// naiveEdit is something an action can do to an input file in its build
+// directory without write permission on the file itself: the directory is
+// its own, so it can unlink the name and create a new file under it.
+type naiveEdit struct {
+	AfterMerge int    `json:"after"` // applied when this merge has completed
+	Build      int    `json:"build"` // which build directory (<= AfterMerge)
+	File       int    `json:"file"`  // index into the sorted list of input files
+	Op         string `json:"op"`    // "replace" (unlink + create), "rename_over" (create elsewhere + rename over it), "remove"
+	Data       string `json:"data"`
+}
+
+// fileOverride is the expected state of an input file after an edit.
+type fileOverride struct {
+	removed bool
+	data    string
 }
 
 // cancelPlan is the Get hook that implements naiveHeader.Cancel.
@@ -121,7 +141,7 @@ func renderDisk(root string) (string, error) {
 				if err != nil {
 					return err
 				}
-				lines = append(lines, fmt.Sprintf("%s/%s symlink->%s", prefix, e.Name(), target))
+				lines = append(lines, fmt.Sprintf("%s/%s symlink->%s", prefix, e.Name(), normTarget(target)))
 			case info.IsDir():
 				lines = append(lines, fmt.Sprintf("%s/%s dir", prefix, e.Name()))
 				if err := walk(full, prefix+"/"+e.Name()); err != nil {
@@ -133,6 +153,9 @@ func renderDisk(root string) (string, error) {
 					return err
 				}
 				lines = append(lines, fmt.Sprintf("%s/%s file x=%v data=%q", prefix, e.Name(), info.Mode()&0o111 != 0, data))
+				if x := info.Mode().Perm() & 0o111; x != 0 && x != 0o111 {
+					lines = append(lines, fmt.Sprintf("%s/%s !partially-executable(%v)", prefix, e.Name(), info.Mode()))
+				}
 			default:
 				lines = append(lines, fmt.Sprintf("%s/%s !mode(%v)", prefix, e.Name(), info.Mode()))
 			}
@@ -149,6 +172,12 @@ func renderDisk(root string) (string, error) {
 // renderSpec expands the DAG. It also reports whether anything reachable
 // is malformed, missing or corrupted (then the merge has to fail).
 func renderSpec(mat *materialized, badTmpl map[int]string) (string, bool) {
+	return renderSpecWith(mat, badTmpl, nil)
+}
+
+// renderSpecWith is renderSpec for a build directory in which the action
+// replaced or removed some input files (keyed by path below the root).
+func renderSpecWith(mat *materialized, badTmpl map[int]string, over map[string]fileOverride) (string, bool) {
 	var lines []string
 	bad := false
 	var walk func(t int, prefix string)
@@ -163,10 +192,16 @@ func renderSpec(mat *materialized, badTmpl map[int]string) (string, bool) {
 				lines = append(lines, fmt.Sprintf("%s/%s dir", prefix, e.Name))
 				walk(e.Child, prefix+"/"+e.Name)
 			case kindSymlink:
-				lines = append(lines, fmt.Sprintf("%s/%s symlink->%s", prefix, e.Name, e.Target))
+				lines = append(lines, fmt.Sprintf("%s/%s symlink->%s", prefix, e.Name, normTarget(e.Target)))
 			default:
 				if mat.badKeys[casKey(mat.fileDigest[e.Content])] {
 					bad = true
+				}
+				if o, ok := over[prefix+"/"+e.Name]; ok {
+					if !o.removed {
+						lines = append(lines, fmt.Sprintf("%s/%s file x=%v data=%q", prefix, e.Name, false, o.data))
+					}
+					continue
 				}
 				lines = append(lines, fmt.Sprintf("%s/%s file x=%v data=%q", prefix, e.Name, e.Exec, mat.spec.Contents[e.Content]))
 			}
@@ -177,9 +212,127 @@ func renderSpec(mat *materialized, badTmpl map[int]string) (string, bool) {
 	return strings.Join(lines, "\n"), bad
 }
 
+// inputFiles lists the paths (below the root) of all files of the
+// expanded DAG, sorted, and the cache key -> contents of every distinct
+// (digest, executable) pair among them, the way HardlinkingFileFetcher
+// names its cache entries.
+func inputFiles(mat *materialized) (paths []string, cacheEntries map[string]string) {
+	cacheEntries = map[string]string{}
+	var walk func(t int, prefix string)
+	walk = func(t int, prefix string) {
+		for _, e := range mat.spec.Dirs[t].Entries {
+			switch e.Kind {
+			case kindDir:
+				walk(e.Child, prefix+"/"+e.Name)
+			case kindFile:
+				paths = append(paths, prefix+"/"+e.Name)
+				key := casKey(mat.fileDigest[e.Content])
+				if e.Exec {
+					key += "+x"
+				} else {
+					key += "-x"
+				}
+				cacheEntries[key] = mat.spec.Contents[e.Content]
+			}
+		}
+	}
+	walk(mat.spec.root(), "")
+	sort.Strings(paths)
+	return paths, cacheEntries
+}
+
+// writableInputFile returns the first regular file below root, other than
+// the ones the action created itself, that somebody has write permission
+// on. Input files are hard links shared with the cache directory and with
+// the build directories of other actions (cas.NewHardlinkingFileFetcher),
+// which is why cas.NewBlobAccessFileFetcher creates them with mode 0444 or
+// 0555: the action may unlink them, but not write to them.
+func writableInputFile(root string, own map[string]fileOverride) (string, error) {
+	found := ""
+	err := filepath.Walk(root, func(p string, info os.FileInfo, err error) error {
+		if err != nil {
+			return err
+		}
+		rel := strings.TrimPrefix(p, root)
+		if _, mine := own[rel]; mine || !info.Mode().IsRegular() {
+			return nil
+		}
+		if info.Mode().Perm()&0o222 != 0 && found == "" {
+			found = fmt.Sprintf("%s (mode %v)", rel, info.Mode())
+		}
+		return nil
+	})
+	return found, err
+}
+
+// checkCacheDirectory verifies the hard link cache on disk: every entry
+// is named <digest key>+x or <digest key>-x, holds exactly the bytes of
+// that digest (a malformed directory may name files that are not in the
+// generated tree, so the name is judged against the bytes themselves), has
+// the matching executable bits and is not writable.
+func checkCacheDirectory(cachePath string) (int, string) {
+	entries, err := os.ReadDir(cachePath)
+	if err != nil {
+		return 0, "cannot list the cache directory: " + err.Error()
+	}
+	for _, e := range entries {
+		key, isX := strings.CutSuffix(e.Name(), "+x")
+		if !isX {
+			var notX bool
+			if key, notX = strings.CutSuffix(e.Name(), "-x"); !notX {
+				return 0, fmt.Sprintf("cache entry %q is not named after a digest and an executable flag", e.Name())
+			}
+		}
+		full := filepath.Join(cachePath, e.Name())
+		info, err := os.Lstat(full)
+		if err != nil {
+			return 0, err.Error()
+		}
+		if !info.Mode().IsRegular() {
+			return 0, fmt.Sprintf("cache entry %q is not a regular file (%v)", e.Name(), info.Mode())
+		}
+		data, err := os.ReadFile(full)
+		if err != nil {
+			return 0, err.Error()
+		}
+		if got := casKey(digestOf(data)); got != key {
+			return 0, fmt.Sprintf("cache entry %q holds %q, whose digest is %s: not the bytes of the digest it is named after", e.Name(), data, got)
+		}
+		if info.Mode().Perm()&0o222 != 0 {
+			return 0, fmt.Sprintf("cache entry %q is writable (mode %v)", e.Name(), info.Mode())
+		}
+		if exec := info.Mode().Perm()&0o111 != 0; exec != strings.HasSuffix(e.Name(), "+x") {
+			return 0, fmt.Sprintf("cache entry %q has mode %v", e.Name(), info.Mode())
+		}
+	}
+	return len(entries), ""
+}
+
+// applyEdit does to build directory `root` what an action that owns the
+// directory (but has no write permission on the input files) can do.
+func applyEdit(root string, rel string, e naiveEdit) error {
+	full := filepath.Join(root, filepath.FromSlash(rel))
+	switch e.Op {
+	case "remove":
+		return os.Remove(full)
+	case "replace":
+		if err := os.Remove(full); err != nil {
+			return err
+		}
+		return os.WriteFile(full, []byte(e.Data), 0o644)
+	case "rename_over":
+		tmp := full + ".verif-tmp"
+		if err := os.WriteFile(tmp, []byte(e.Data), 0o644); err != nil {
+			return err
+		}
+		return os.Rename(tmp, full)
+	}
+	panic("harness bug: unknown edit " + e.Op)
+}
+
 func TestC17NaiveBuildDirectory(t *testing.T) {
 	rec := simkit.NewRecorder(t, "C17", "naive-build-directory",
-		"rapid: DAG (+0-1 malformation) in the fake CAS; real naiveBuildDirectory over a real local directory (per-run temporary directory under VERIF_SCRATCH, removed before the test returns) with the real BlobAccessFileFetcher, optionally wrapped by HardlinkingFileFetcher with a 1-3 entry cache directory, caching or plain directory fetcher, download concurrency 1-4; MergeDirectoryContents of the same root into 1-3 build directories in a row (later ones are served from the hard link cache, with evictions). Oracle: if nothing reachable is malformed/missing/corrupted, the merge succeeds and every build directory on disk has exactly the names, kinds, exec bits, symlink targets and bytes of the expanded DAG (earlier ones still intact after later merges); otherwise the merge reports an error. NON-TRIVIAL: a shared template expanded in >=2 places on disk, >=2 merges and a hard link cache in use, or a malformation below the root that made the merge fail, or the caller's context cancelled while the last downloads were held in flight after the traversal had launched everything; distinct by script hash. Cancellation cases (1 in 3): plain BlobAccessFileFetcher over a fake CAS that honours the context; the context is cancelled when file download #k starts, or when all downloads have started with the last min(concurrency, files) held in flight; oracle: MergeDirectoryContents returns nil => the tree on disk equals the DAG, otherwise it returns an error")
+		"rapid: DAG (+0-1 malformation) in the fake CAS; real naiveBuildDirectory over a real local directory (per-run temporary directory under VERIF_SCRATCH, removed before the test returns) with the real BlobAccessFileFetcher, optionally wrapped by HardlinkingFileFetcher with a 1-3 entry cache directory, caching or plain directory fetcher, download concurrency 1-4; MergeDirectoryContents of the same root into 1-3 build directories in a row (later ones are served from the hard link cache, with evictions); between the merges the harness acts like the actions: it replaces (unlink + create, or create + rename over) or removes input files in a build directory it 'owns'. Oracle: if nothing reachable is malformed/missing/corrupted, the merge succeeds and every build directory on disk has exactly the names, kinds, exec bits, symlink targets (POSIX-equivalent) and bytes of the expanded DAG plus its own edits (earlier ones still intact after later merges and after edits in OTHER build directories; a merge after an edit still delivers the original bytes); no input file in any build directory and no entry of the cache directory is writable (they are hard links of each other); every cache entry holds exactly the bytes of the digest it is named after, also after a failed or cancelled merge; otherwise the merge reports an error. NON-TRIVIAL: a shared template expanded in >=2 places on disk, >=2 merges and a hard link cache in use, or an input file replaced in one build directory while another build directory and the cache held hard links to it, or a malformation below the root that made the merge fail, or the caller's context cancelled while the last downloads were held in flight after the traversal had launched everything, or a merge cancelled with the hard link cache in use followed by a complete merge from that cache; distinct by script hash. Cancellation cases (1 in 3): fake CAS that honours the context; the context is cancelled when file download #k starts, or (plain BlobAccessFileFetcher only) when all downloads have started with the last min(concurrency, files) held in flight; oracle: MergeDirectoryContents returns nil => the tree on disk equals the DAG, otherwise it returns an error; with the hard link cache a second merge with a live context follows and must deliver the whole tree")
 	scratch := os.Getenv("VERIF_SCRATCH")
 	if scratch == "" {
 		scratch = t.TempDir()
@@ -198,7 +351,9 @@ func TestC17NaiveBuildDirectory(t *testing.T) {
 		caseDir := filepath.Join(base, fmt.Sprintf("case%d", caseNo))
 		defer os.RemoveAll(caseDir)
 		hdr := naiveHeader{Op: "setup", DAG: drawDAG(rt), World: drawWorldConfig(rt)}
-		switch rapid.IntRange(0, 5).Draw(rt, "variant") {
+		variant := rapid.IntRange(0, 5).Draw(rt, "variant")
+		hdr.Hardlinking = rapid.IntRange(0, 3).Draw(rt, "hardlinking") > 0
+		switch variant {
 		case 0, 1:
 			ms := drawMalformations(rt, hdr.DAG)
 			if len(ms) > 1 {
@@ -224,26 +379,55 @@ func TestC17NaiveBuildDirectory(t *testing.T) {
 			if nFiles := countFiles(hdr.DAG); nFiles > 0 {
 				hdr.Cancel = rapid.SampledFrom([]string{"window", "window", "at"}).Draw(rt, "cancel")
 				hdr.CancelAt = rapid.IntRange(0, nFiles-1).Draw(rt, "cancelAt")
+				// Half of the cancellations with the hard link cache.
+				hdr.Hardlinking = rapid.Bool().Draw(rt, "cancelWithCache")
 			}
 		}
-		hdr.Hardlinking = rapid.IntRange(0, 3).Draw(rt, "hardlinking") > 0 && hdr.Cancel == ""
 		hdr.MaxFiles = rapid.IntRange(1, 3).Draw(rt, "maxFiles")
 		hdr.MaxBytes = rapid.SampledFrom([]int64{1, 50, 1 << 20}).Draw(rt, "maxBytes")
 		hdr.Concurrency = int64(rapid.IntRange(1, 4).Draw(rt, "concurrency"))
 		hdr.Merges = rapid.IntRange(1, 3).Draw(rt, "merges")
-		if hdr.Cancel != "" {
-			hdr.Merges = 1
-		}
 
 		c := newFakeCAS()
 		mat, badTmpl, _, _ := materializeWith(c, hdr.DAG, hdr.Malform)
 		before := c.snapshot()
 		want, mustFail := renderSpec(mat, badTmpl)
+		filePaths, cacheEntries := inputFiles(mat)
+
+		if hdr.Cancel != "" {
+			hdr.Merges = 1
+			if hdr.Hardlinking {
+				// Requests for a file that is in the cache, or that is
+				// being downloaded by somebody else, do not reach the
+				// CAS, so only one download per distinct (digest,
+				// executable) pair is certain to start, and a download
+				// that is held back makes the other requests for the
+				// same file wait while they occupy download slots: only
+				// "cancel when download #k starts" is used. A second
+				// merge with a live context follows.
+				hdr.Cancel = "at"
+				hdr.CancelAt %= len(cacheEntries)
+				hdr.Merges = 2
+			}
+		}
+		if hdr.Cancel == "" && !mustFail && len(filePaths) > 0 {
+			for m := 0; m < hdr.Merges; m++ {
+				for i, n := 0, rapid.IntRange(0, 2).Draw(rt, "nEdits"); i < n; i++ {
+					hdr.Edits = append(hdr.Edits, naiveEdit{
+						AfterMerge: m,
+						Build:      rapid.IntRange(0, m).Draw(rt, "editBuild"),
+						File:       rapid.IntRange(0, len(filePaths)-1).Draw(rt, "editFile"),
+						Op:         rapid.SampledFrom([]string{"replace", "replace", "rename_over", "remove"}).Draw(rt, "editOp"),
+						Data:       "edited:" + drawData(rt),
+					})
+				}
+			}
+		}
 
 		cancelOutcome := ""
+		cachePath := filepath.Join(caseDir, "cache")
 		var fileFetcher cas.FileFetcher = cas.NewBlobAccessFileFetcher(c)
 		if hdr.Hardlinking {
-			cachePath := filepath.Join(caseDir, "cache")
 			if err := os.MkdirAll(cachePath, 0o777); err != nil {
 				rt.Fatalf("mkdir: %v", err)
 			}
@@ -254,19 +438,41 @@ func TestC17NaiveBuildDirectory(t *testing.T) {
 			defer cacheDirectory.Close()
 			fileFetcher = cas.NewHardlinkingFileFetcher(fileFetcher, cacheDirectory, hdr.MaxFiles, hdr.MaxBytes, eviction.NewLRUSet[string]())
 		}
+		maxCacheEntries := 0
+		checkCache := func(when string) {
+			if !hdr.Hardlinking {
+				return
+			}
+			n, msg := checkCacheDirectory(cachePath)
+			if msg != "" {
+				rt.Fatalf("%s: hard link cache: %s\nscript=%s", when, msg, jsonOf(hdr))
+			}
+			maxCacheEntries = max(maxCacheEntries, n)
+		}
 		directoryFetcher := newDirectoryFetcher(c, hdr.World)
 		sem := semaphore.NewWeighted(hdr.Concurrency)
-		mergeCtx := ctx
 		var plan *cancelPlan
-		if hdr.Cancel != "" {
-			var cancel context.CancelFunc
-			mergeCtx, cancel = context.WithCancel(ctx)
-			defer cancel()
-			nFiles := countFiles(hdr.DAG)
-			plan = &cancelPlan{fileKeys: c.fileKeys, mode: hdr.Cancel, at: hdr.CancelAt, total: nFiles, window: min(int(hdr.Concurrency), nFiles), cancel: cancel, released: make(chan struct{})}
-			c.getHook = plan.hook
-		}
 		var roots []string
+		var overrides []map[string]fileOverride
+		sharedReplaced := false
+		// verifyAll compares every build directory merged so far with the
+		// requested tree plus the edits made in THAT directory.
+		verifyAll := func(when string) {
+			for i, root := range roots {
+				wantI, _ := renderSpecWith(mat, badTmpl, overrides[i])
+				got, err := renderDisk(root)
+				if err != nil {
+					rt.Fatalf("%s: cannot list %s: %v\nscript=%s", when, root, err, jsonOf(hdr))
+				}
+				if got != wantI {
+					rt.Fatalf("%s: build directory %d on disk is\n%s\nbut the requested tree (plus what the action did in that directory) is\n%s\nscript=%s", when, i, got, wantI, jsonOf(hdr))
+				}
+				if w, err := writableInputFile(root, overrides[i]); err != nil || w != "" {
+					rt.Fatalf("%s: build directory %d: input file %s is writable by the action (%v); input files are created read-only (0444/0555) because with the hard link cache they are shared with the cache and with other actions' build directories\nscript=%s", when, i, w, err, jsonOf(hdr))
+				}
+			}
+			checkCache(when)
+		}
 		for m := 0; m < hdr.Merges; m++ {
 			buildPath := filepath.Join(caseDir, fmt.Sprintf("build%d", m))
 			if err := os.MkdirAll(buildPath, 0o777); err != nil {
@@ -276,13 +482,29 @@ func TestC17NaiveBuildDirectory(t *testing.T) {
 			if err != nil {
 				rt.Fatalf("cannot open build directory: %v", err)
 			}
+			mergeCtx := ctx
+			cancelled := hdr.Cancel != "" && m == 0
+			if cancelled {
+				var cancel context.CancelFunc
+				mergeCtx, cancel = context.WithCancel(ctx)
+				defer cancel()
+				total := len(filePaths)
+				if hdr.Hardlinking {
+					total = len(cacheEntries)
+				}
+				plan = &cancelPlan{fileKeys: c.fileKeys, mode: hdr.Cancel, at: hdr.CancelAt, total: total, window: min(int(hdr.Concurrency), total), cancel: cancel, released: make(chan struct{})}
+				c.getHook = plan.hook
+			}
 			bd := builder.NewNaiveBuildDirectory(buildDirectory, directoryFetcher, fileFetcher, sem, c)
 			err = bd.MergeDirectoryContents(mergeCtx, &errLogger{}, mat.rootDigest(), nil)
 			bd.Close()
-			if plan != nil {
+			if cancelled {
 				// Success is only acceptable if everything is there;
 				// an error is always acceptable.
 				c.getHook = nil
+				if !plan.fired {
+					rt.Fatalf("harness bug: the cancellation point (%s, %d of %d) was not reached; script=%s", hdr.Cancel, hdr.CancelAt, plan.total, jsonOf(hdr))
+				}
 				if err == nil {
 					got, lerr := renderDisk(buildPath)
 					if lerr != nil || got != want {
@@ -292,6 +514,8 @@ func TestC17NaiveBuildDirectory(t *testing.T) {
 				} else {
 					cancelOutcome = "cancelled_and_failed:" + status.Code(err).String()
 				}
+				// Whatever made it into the cache is complete.
+				checkCache("after the cancelled merge")
 				continue
 			}
 			if mustFail {
@@ -299,20 +523,33 @@ func TestC17NaiveBuildDirectory(t *testing.T) {
 					got, _ := renderDisk(buildPath)
 					rt.Fatalf("merge %d succeeded although the requested tree is malformed or incomplete; on disk:\n%s\nscript=%s", m, got, jsonOf(hdr))
 				}
+				checkCache(fmt.Sprintf("after merge %d failed", m))
 				continue
 			}
 			if err != nil {
 				rt.Fatalf("merge %d of a well-formed input root failed: %v\nscript=%s", m, err, jsonOf(hdr))
 			}
 			roots = append(roots, buildPath)
-			for i, root := range roots {
-				got, err := renderDisk(root)
-				if err != nil {
-					rt.Fatalf("cannot list %s: %v\nscript=%s", root, err, jsonOf(hdr))
+			overrides = append(overrides, map[string]fileOverride{})
+			verifyAll(fmt.Sprintf("after merge %d", m))
+			for _, e := range hdr.Edits {
+				if e.AfterMerge != m || e.Build >= len(roots) {
+					continue
 				}
-				if got != want {
-					rt.Fatalf("after merge %d, build directory %d on disk is\n%s\nbut the requested tree is\n%s\nscript=%s", m, i, got, want, jsonOf(hdr))
+				rel := filePaths[e.File]
+				if overrides[e.Build][rel].removed {
+					continue // nothing left to edit under that name
 				}
+				if err := applyEdit(roots[e.Build], rel, e); err != nil {
+					rt.Fatalf("harness: edit %+v failed: %v\nscript=%s", e, err, jsonOf(hdr))
+				}
+				overrides[e.Build][rel] = fileOverride{removed: e.Op == "remove", data: e.Data}
+				if hdr.Hardlinking && len(roots) > 1 && e.Op != "remove" {
+					sharedReplaced = true
+				}
+				// The other build directories and the cache entry
+				// still hold the bytes of the digest.
+				verifyAll(fmt.Sprintf("after merge %d and edit %+v", m, e))
 			}
 		}
 		if msg := diffSnapshots(before, c.snapshot()); msg != "" {
@@ -341,14 +578,21 @@ func TestC17NaiveBuildDirectory(t *testing.T) {
 		add(shared, "shared_subtree")
 		add(hdr.Hardlinking, "hardlink_cache")
 		add(hdr.Merges > 1, "several_merges")
+		add(len(hdr.Edits) > 0, "action_edits")
+		add(sharedReplaced, "input_file_replaced_while_hard_linked_elsewhere")
+		add(maxCacheEntries > 0, "cache_entries_verified")
+		cancelledWithCache := false
 		if plan != nil {
 			labels = append(labels, "cancel:"+hdr.Cancel, cancelOutcome)
 			add(plan.fired && hdr.Cancel == "window", "cancelled_with_downloads_in_flight_after_traversal")
+			cancelledWithCache = hdr.Hardlinking && len(roots) == 1
+			add(cancelledWithCache, "cancelled_with_hardlink_cache_then_complete_merge")
 		}
 		for _, m := range hdr.Malform {
 			labels = append(labels, "malformed:"+m.Kind)
 		}
-		nontrivial := (plan != nil && plan.fired && hdr.Cancel == "window") || (!mustFail && shared && hdr.Merges > 1 && hdr.Hardlinking) || (mustFail && (badBelowRoot || len(mat.badKeys) > 0))
+		nontrivial := (plan != nil && plan.fired && hdr.Cancel == "window") || cancelledWithCache || sharedReplaced ||
+			(!mustFail && shared && hdr.Merges > 1 && hdr.Hardlinking) || (mustFail && (badBelowRoot || len(mat.badKeys) > 0))
 		rec.Case(hdr, nontrivial, labels...)
 	})
 }
